@@ -106,7 +106,7 @@ def _assumptions(pid):
         import manifest_data
         c = manifest_data.CLAIMS.get(pid, {})
         return [c.get("note", "")] + ["the implementation runs with the fastcore-1.7 compatibility shim (DESIGN.md 1.1)",
-                                      "inputs are 7-bit text; structurally typed descriptions"]
+                                      "inputs are Latin-1 text (code points 0-255); structurally typed descriptions"]
     except Exception:  # noqa: BLE001
         return []
 
